@@ -94,9 +94,11 @@ Definition zlen (l : list N) : Z := Z.of_nat (length l).
 (* ---- the type ------------------------------------------------------------------ *)
 Record dec := { d_n : Z; d_scale : Z; d_negzero : bool }.
 
-(* NewDecimal(n, exp int32, negZero): scale: -exp  (int32 negation wraps at MinInt32) *)
+(* NewDecimal(n, exp int32, negZero): scale: -exp  (int32 negation wraps at MinInt32);
+   isNegZero: negZero && n != nil && n.Sign() == 0  (the flag is ignored on a non-zero
+   coefficient; a nil coefficient has no counterpart in the model) *)
 Definition new_decimal (n exp : Z) (nz : bool) : dec :=
-  {| d_n := n; d_scale := wrap32 (- exp); d_negzero := nz |}.
+  {| d_n := n; d_scale := wrap32 (- exp); d_negzero := nz && (n =? 0) |}.
 (* CoEx() : (d.n, -d.scale) *)
 Definition coex_exp (d : dec) : Z := wrap32 (- d_scale d).
 
@@ -204,6 +206,9 @@ Definition dec_format (d : dec) : list N :=
       ++ c_d :: zstr (idx - prefix).
 
 (* ---- ParseDecimal ----------------------------------------------------------------------- *)
+(* exponent is an int64: tmp comes from ParseInt(exp, 10, 32); exponent -= int64(len(fpart))
+   (an int64 subtraction), then "if exponent < math.MinInt32 { return error }"; the final
+   int32(exponent) conversion is written as wrap32. *)
 Definition dec_parse (inp : list N) : res dec :=
   match inp with
   | [] => Err
@@ -214,22 +219,24 @@ Definition dec_parse (inp : list N) : res dec :=
         match e with
         | [] => Err
         | _ => match parse_int 32 e with
-               | Some tmp => Ok (wrap32 tmp, m)
+               | Some tmp => Ok (tmp, m)
                | None => Err
                end
         end
       | None => Ok (0, inp)
       end;
-    let '(exponent2, inp2) :=
+    do '(exponent2, inp2) <-
       match split_first is_dot inp1 with
-      | Some (ipart, fpart) => (wrap32 (exponent - wrap32 (zlen fpart)), ipart ++ fpart)
-      | None => (exponent, inp1)
-      end in
+      | Some (ipart, fpart) =>
+        let e2 := wrap64 (exponent - wrap64 (zlen fpart)) in
+        if e2 <? min_i32 then Err else Ok (e2, ipart ++ fpart)
+      | None => Ok (exponent, inp1)
+      end;
     match set_string inp2 with
     | None => Err
     | Some n =>
       let is_neg_zero := (n =? 0) && starts_minus inp2 in
-      Ok (new_decimal n exponent2 is_neg_zero)
+      Ok (new_decimal n (wrap32 exponent2) is_neg_zero)
     end
   end.
 
